@@ -47,14 +47,16 @@ def config(name):
 def inorder(root):
     out = []
 
-    def rec(n):
+    def rec(n, d):
         if n is None:
             return
-        rec(n.left)
+        if d > 400:
+            raise SG.Cyclic("links nest deeper than 400 levels")
+        rec(n.left, d + 1)
         out.append(n)
-        rec(n.right)
+        rec(n.right, d + 1)
 
-    rec(root)
+    rec(root, 0)
     return out
 
 
@@ -99,6 +101,10 @@ def get_root(node, limit=10000):
 def scan(root):
     """ask every configuration about every node, as the explorers do before choosing a transition"""
     nodes = inorder(root)
+    try:
+        str(root)  # agents print every state they look at
+    except Exception:  # noqa
+        pass
     for _, rule in configs():
         for n in nodes:
             try:
